@@ -130,6 +130,33 @@ func c14Pay(c *fw.Ctx, i int) {
 		for k := 0; k < n; k++ {
 			units = append(units, c14Unit(r, c14Size(r, mtu)))
 		}
+		if mtu >= 16 && r.Chance(1, 3) {
+			// small units whose aggregation packet (2 + sum(2 + len) [+ 2 + (k-1) with DONL]) lands on MTU-2 .. MTU+2,
+			// optionally followed by one more unit: the "does it still fit" arithmetic is at its edge
+			k := r.Range(2, 4)
+			over := 2 + 2*k
+			if donl {
+				over += 2 + (k - 1)
+			}
+			total := mtu + r.Pick(-2, -1, 0, 1, 2) - over
+			if total >= 3*k {
+				units = nil
+				rest := total
+				for q := 0; q < k; q++ {
+					sz := 3
+					if q == k-1 {
+						sz = rest
+					} else if rest-3*(k-q) > 0 {
+						sz = 3 + r.Intn(rest-3*(k-q)+1)
+					}
+					rest -= sz
+					units = append(units, c14Unit(r, sz))
+				}
+				if r.Bool() {
+					units = append(units, c14Unit(r, r.Pick(3, 4, 5, 8)))
+				}
+			}
+		}
 		in, sc := gen.AnnexB(r, units)
 		var out [][]byte
 		if pv, st := fw.Guard(func() { out = p.Payload(uint16(mtu), in) }); pv != nil {
